@@ -21,11 +21,52 @@
 (*   member "hook_no_checks" of the CONSTANT Defects: the EVM post-tx hook *)
 (*   converts on a Transfer(_, module, n) LOG without the before/after     *)
 (*   balance check and without the Approval monitor of the message path.   *)
+(*   A second named deviation, "unescrow_receiver_only": when the module   *)
+(*   releases escrowed tokens (ConvertCoin on an ERC20-origin pair) the    *)
+(*   code verifies the RECEIVER's balance and never its own escrow.        *)
+(*   A third, "wrapper_false_is_success": the bank-send wrapper returns    *)
+(*   success, without any further check, when transfer() answers false.    *)
+(*                                                                         *)
+(* Token contracts.  An ERC20-origin pair is backed by a contract the      *)
+(* chain does not control: everything the chain learns about the token it  *)
+(* learns from the ANSWERS of balanceOf() / transfer() and from logs.  The *)
+(* state below holds the token's TRUE books (what its transfer() really    *)
+(* moved); P is stated over the true books ("even against token contracts  *)
+(* that misreport balances"), M computes what the keeper SEES (BalRead,    *)
+(* the return word of transfer) from the behaviour of the token:           *)
+(*   behaviour  honest | delayedMalicious | directManipulation |           *)
+(*              selfDestructed | fakeTransferLog   (fixed contracts)       *)
+(*            | adv   a switchable adversarial token: it behaves honestly  *)
+(*              until its owner arms it (step "arm"); while armed          *)
+(*       bal    how balanceOf()/totalSupply() answer:                      *)
+(*              true | empty (no return data) | revert | short (16 bytes)  *)
+(*              | zero (always 0) | high (true + LIE)                      *)
+(*       xfer   what transfer(to, n) does:                                 *)
+(*              honest | noop (true, moves nothing) | less (moves n/2)     *)
+(*              | more (moves 2n) | elsewhere (n to the thief instead)     *)
+(*              | extra (n to `to` AND n more from the caller to the       *)
+(*              thief) | retFalse | retEmpty | retShort (moves n, answers  *)
+(*              false / nothing / 16 bytes) | refuse (moves nothing and    *)
+(*              answers false: the non-reverting way of failing)           *)
+(*       shot   always | once (the first transfer while armed disarms the  *)
+(*              token: the read BEFORE the transfer is answered in the     *)
+(*              armed way, the read AFTER it honestly - "changes between    *)
+(*              reads")                                                    *)
+(*   The adversarial token logs truthfully what it moved (lying logs are   *)
+(*   the fakeTransferLog / delayedMalicious behaviours).                   *)
+(*   Scope note (ForgedDelta): a token whose two ANSWERS within one        *)
+(*   conversion differ by exactly the converted amount while its transfer  *)
+(*   moved something else (value lies with shot = once: "zero"/"high")     *)
+(*   forges the only evidence any implementation can have; the scenario    *)
+(*   space of the real runs leaves these combinations out and the          *)
+(*   configuration Erc20Peg_forged_delta.cfg records that M (and so the    *)
+(*   code) mints against nothing for them; one fixed witness scenario      *)
+(*   (lib/props/c10.py FORGED_WITNESS) shows it on the real chain.         *)
 (*                                                                         *)
 (* A state is a record                                                     *)
 (*   kind        "coin" (owner = module) | "erc20" (owner = external)      *)
-(*   behaviour   honest | delayedMalicious | directManipulation |          *)
-(*               selfDestructed | fakeTransferLog                          *)
+(*   behaviour, bal, xfer, shot   see above ("-" where not applicable)     *)
+(*   armed       the adversarial token is switched on                      *)
 (*   registered, enabled   the pair in the registry                        *)
 (*   alive       the contract still has code                               *)
 (*   escrowCoins coins of the pair's denom held by the erc20 module account*)
@@ -34,8 +75,9 @@
 (*   ibcEscrow   coins of the denom in the ICS-20 channel escrow account   *)
 (*               (ERC20 origin: coins in flight over IBC; "0" for vouchers)*)
 (*   coinOther   coinSupply - escrowCoins - ibcEscrow - Sum(coinBal)       *)
-(*   tokenSupply totalSupply()                                             *)
-(*   tokenBal    [acct -> amount]   (the same accounts and the module "m") *)
+(*   tokenSupply the token's true total supply                             *)
+(*   tokenBal    [acct -> amount]   (the same accounts and the module "m"),*)
+(*               true books                                                *)
 (*   tokenOther  tokenSupply - Sum(tokenBal)                               *)
 (*   allowMT     allowance(module -> thief)   (not constrained by P)       *)
 (* Amounts are decimal strings (module BigNum).                            *)
@@ -47,13 +89,14 @@ CONSTANTS
     Amts,        \* amounts used by the model, e.g. {"1","2","3"}
     InitBal,     \* initial balance of every holder (coins for "coin", tokens for "erc20")
     MaxLen,      \* bound on the length of a behaviour
-    Scenarios,   \* set of <<kind, behaviour>> the model starts from (MC_* operators)
-    Defects      \* subset of {"hook_no_checks"}
+    Scenarios,   \* set of <<kind, behaviour, bal, xfer, shot>> the model starts from (MC_* operators)
+    Defects      \* subset of {"hook_no_checks", "unescrow_receiver_only", "wrapper_false_is_success"}
 
 Thief  == "t"
 Module == "m"
 Accts  == Holders \cup {Thief}
 BIG    == "1000000000000000000"   \* the allowance ERC20MaliciousDelayed grants
+LIE    == "2"                     \* by how much a "high" balanceOf overstates
 
 ---------------------------------------------------------------------------
 (* helpers *)
@@ -106,6 +149,32 @@ T2C(s, from, to, x) ==
     ELSE [s EXCEPT !.tokenBal = Plus(Minus(@, from, x), Module, x),
                    !.coinSupply = BigAdd(@, x), !.coinBal = Plus(@, to, x)]
 
+\* An ERC20-origin pair: the token side is kept by a contract the chain does not control.  What
+\* P demands of a conversion of x is what the CHAIN is answerable for: the coin side moves exactly
+\* as for C2T / T2C, the module's escrow (true books) moves by exactly x, the party the chain
+\* pays in tokens receives exactly x, the party that pays in tokens loses at least x (a token that
+\* takes more from its own holder robs the holder, not the peg), and nobody else is touched -
+\* except that a thieving token may have credited its thief (the token's business; whether the
+\* ESCROW paid for it is what the backing invariant and the exact escrow clause decide).
+ThirdOK(s, t, involved) ==
+    \A a \in (DOMAIN s.tokenBal) \ involved :
+        t.tokenBal[a] = s.tokenBal[a] \/ (s.kind = "erc20" /\ a = Thief /\ BigLE(s.tokenBal[a], t.tokenBal[a]))
+
+C2TOK(s, t, from, to, x) ==
+    IF s.kind = "coin" THEN SameBal(t, C2T(s, from, to, x))
+    ELSE /\ Coins(t) = Coins(C2T(s, from, to, x))
+         /\ IF BigIsZero(x) THEN Tokens(t) = Tokens(s)
+            ELSE /\ BigEq(t.tokenBal[Module], BigSub(s.tokenBal[Module], x))
+                 /\ BigEq(t.tokenBal[to], BigAdd(s.tokenBal[to], x))
+                 /\ ThirdOK(s, t, {Module, to})
+
+T2COK(s, t, from, to, x) ==
+    IF s.kind = "coin" THEN SameBal(t, T2C(s, from, to, x))
+    ELSE /\ Coins(t) = Coins(T2C(s, from, to, x))
+         /\ BigEq(t.tokenBal[Module], BigAdd(s.tokenBal[Module], x))
+         /\ BigLE(t.tokenBal[from], BigSub(s.tokenBal[from], x))
+         /\ ThirdOK(s, t, {Module, from})
+
 \* an Ethereum transaction transfer(to, n) sent by `from`: what the token does with its own
 \* balances is its business; if the chain converted c > 0 then the sender got exactly c coins,
 \* against exactly c tokens burned (coin origin) / escrowed (ERC20 origin), taken from the sender
@@ -125,17 +194,22 @@ EvmTransferOK(s, t, from) ==
 
 Converted(s, t) == IF s.kind = "coin" THEN BigSub(s.escrowCoins, t.escrowCoins) ELSE BigSub(t.coinSupply, s.coinSupply)
 ConvertsExactly(s, t, to, amt) ==
-    (to = Module /\ s.registered /\ s.enabled /\ s.alive /\ s.behaviour \in {"honest", "delayedMalicious"} /\ Pos(amt))
+    (to = Module /\ s.registered /\ s.enabled /\ s.alive /\ Pos(amt)
+        /\ (s.behaviour \in {"honest", "delayedMalicious"} \/ (s.behaviour = "adv" /\ ~s.armed)))
        => BigEq(Converted(s, t), amt)
 
 \* bank MsgSend of the pair's denom: value amt moves from `from` to `to` in whichever
 \* representation; whatever was converted on the way moved both sides of the backing equally
 Wealth(s, a) == BigAdd(s.coinBal[a], s.tokenBal[a])
+\* (ERC20 origin: the sender loses AT LEAST amt - see ThirdOK for what a thieving token may do)
 BankSendOK(s, t, from, to, amt) ==
-    /\ IF from = to THEN BigEq(Wealth(t, from), Wealth(s, from))
-       ELSE /\ BigEq(Wealth(t, from), BigSub(Wealth(s, from), amt))
+    /\ IF from = to
+       THEN IF s.kind = "coin" THEN BigEq(Wealth(t, from), Wealth(s, from)) ELSE BigLE(Wealth(t, from), Wealth(s, from))
+       ELSE /\ IF s.kind = "coin" THEN BigEq(Wealth(t, from), BigSub(Wealth(s, from), amt))
+                                  ELSE BigLE(Wealth(t, from), BigSub(Wealth(s, from), amt))
             /\ BigEq(Wealth(t, to), BigAdd(Wealth(s, to), amt))
-    /\ \A a \in AcctsOf(s) \ {from, to} : t.coinBal[a] = s.coinBal[a] /\ t.tokenBal[a] = s.tokenBal[a]
+    /\ \A a \in AcctsOf(s) \ {from, to} : t.coinBal[a] = s.coinBal[a]
+    /\ ThirdOK(s, t, {from, to, Module})
     /\ \A a \in {from, to} : BigSign(t.coinBal[a]) >= 0 /\ BigSign(t.tokenBal[a]) >= 0
     /\ t.coinOther = s.coinOther /\ t.tokenOther = s.tokenOther
     /\ IF s.kind = "coin"
@@ -156,15 +230,15 @@ IbcInOK(s, t, a, inflow) ==
     LET s1 == IbcCredit(s, a, inflow)
         c  == BigSub(s1.coinBal[a], t.coinBal[a]) IN
     /\ BigSign(c) >= 0
-    /\ SameBal(t, C2T(s1, a, a, c))
+    /\ C2TOK(s1, t, a, a, c)
 
 \* what a step of each kind may have done (P).  e: [ev, args, ok]; s before; t after.
 StepOK(e, s, t) ==
     IF ~e.ok THEN SameBal(s, t)
     ELSE CASE e.ev = "convert_coin" ->
-                 SameBal(t, C2T(s, e.args.from, e.args.to, e.args.amt)) \/ SameBal(t, s)
+                 C2TOK(s, t, e.args.from, e.args.to, e.args.amt) \/ SameBal(t, s)
            [] e.ev = "convert_erc20" ->
-                 SameBal(t, T2C(s, e.args.from, e.args.to, e.args.amt)) \/ SameBal(t, s)
+                 T2COK(s, t, e.args.from, e.args.to, e.args.amt) \/ SameBal(t, s)
            \* ... and against a token that moves exactly what it is asked to move, a successful transfer to the module
            \* address of a usable pair IS a conversion of exactly that amount ("debits one representation and credits
            \* the other by exactly the same amount or fails without effect")
@@ -180,6 +254,7 @@ StepOK(e, s, t) ==
                                       !.ibcEscrow = BigAdd(@, e.args.amt)]) \/ SameBal(t, s)
            [] e.ev = "evm_approve" -> SameBal(t, s)    \* an approval is not a conversion
            [] e.ev = "toggle" -> SameBal(t, s)
+           [] e.ev = "arm" -> SameBal(t, s)            \* the token's owner flips its switch: no conversion
            [] e.ev = "holder_burn" ->
                  /\ Coins(t) = Coins(s)
                  /\ s.kind = "coin" =>
@@ -192,7 +267,7 @@ StepOK(e, s, t) ==
 \* how a step reaches the conversion code
 PathOf(ev) ==
     CASE ev \in {"convert_coin", "convert_erc20"} -> "msg"
-      [] ev \in {"evm_transfer", "evm_approve", "evm_batch"} -> "hook"
+      [] ev \in {"evm_transfer", "evm_approve", "evm_batch", "arm"} -> "hook"
       [] ev = "bank_send" -> "bank"
       [] ev \in {"ibc_recv", "ibc_ack", "ibc_timeout", "ibc_out"} -> "ibc"
       [] ev = "holder_burn" -> "burn"
@@ -201,27 +276,76 @@ PathOf(ev) ==
 
 OriginOf(s) == IF s.kind = "coin" THEN "coin-origin" ELSE "erc20-origin"
 
+\* the name of a token behaviour in a violation signature
+BehName(s) == IF s.behaviour = "adv" THEN "adv(" \o s.bal \o "/" \o s.xfer \o "/" \o s.shot \o ")" ELSE s.behaviour
+
 ---------------------------------------------------------------------------
 (* M: token contract behaviours.  transfer(to, n) called by `caller`:       *)
-(* [ok, tb (balances after), al (allowance module->thief after),            *)
-(*  appr (an Approval event was emitted), logs (Transfer events)]           *)
+(* [ok (did not revert), tb (true balances after), al (allowance            *)
+(*  module->thief after), appr (an Approval event was emitted), logs        *)
+(*  (Transfer events), ret (the answer: "true" | "false" | "bad" = does not  *)
+(*  decode as one bool word), armed (the adversarial switch after the call)] *)
 
 TLog(f, t, n) == [from |-> f, to |-> t, n |-> n]
-TokFail(s) == [ok |-> FALSE, tb |-> s.tokenBal, al |-> s.allowMT, appr |-> FALSE, logs |-> <<>>]
+TokFail(s) == [ok |-> FALSE, tb |-> s.tokenBal, al |-> s.allowMT, appr |-> FALSE, logs |-> <<>>,
+               ret |-> "true", armed |-> s.armed]
+
+IsAdv(s)  == s.behaviour = "adv"
+Active(s) == IsAdv(s) /\ s.armed
+
+\* what balanceOf(a) ANSWERS: [ok (an answer that decodes as one uint256 word), v]
+FailReads == {"empty", "revert", "short"}
+BalRead(s, a) ==
+    IF ~Active(s) \/ s.bal = "true" THEN [ok |-> TRUE, v |-> s.tokenBal[a]]
+    ELSE IF s.bal \in FailReads THEN [ok |-> FALSE, v |-> "0"]
+    ELSE IF s.bal = "zero" THEN [ok |-> TRUE, v |-> "0"]
+    ELSE [ok |-> TRUE, v |-> BigAdd(s.tokenBal[a], LIE)]          \* "high"
+
+\* the switchable adversarial token (harness/erc20peg.go epAdvTokenCode); legs are ordinary
+\* sequential balance moves, each needing cover
+AdvTransfer(s, caller, to, n) ==
+    LET tb == s.tokenBal
+        x  == IF s.armed THEN s.xfer ELSE "honest"
+        after == IF s.armed /\ s.shot = "once" THEN FALSE ELSE s.armed
+        Out(tb2, logs, ret) == [ok |-> TRUE, tb |-> tb2, al |-> s.allowMT, appr |-> FALSE, logs |-> logs,
+                                ret |-> ret, armed |-> after]
+        Leg(bal, t2, m) == Move(bal, caller, t2, m)
+    IN
+    CASE x \in {"honest", "retFalse", "retEmpty", "retShort"} ->
+           IF BigLE(n, tb[caller])
+           THEN Out(Leg(tb, to, n), <<TLog(caller, to, n)>>,
+                    IF x = "honest" THEN "true" ELSE IF x = "retFalse" THEN "false" ELSE "bad")
+           ELSE TokFail(s)
+      [] x = "noop" -> Out(tb, <<>>, "true")
+      [] x = "refuse" -> Out(tb, <<>>, "false")
+      [] x = "less" ->
+           LET h == BigQuo(n, "2") IN
+           IF BigLE(h, tb[caller]) THEN Out(Leg(tb, to, h), <<TLog(caller, to, h)>>, "true") ELSE TokFail(s)
+      [] x = "more" ->
+           LET d == BigMul(n, "2") IN
+           IF BigLE(d, tb[caller]) THEN Out(Leg(tb, to, d), <<TLog(caller, to, d)>>, "true") ELSE TokFail(s)
+      [] x = "elsewhere" ->
+           IF BigLE(n, tb[caller]) THEN Out(Leg(tb, Thief, n), <<TLog(caller, Thief, n)>>, "true") ELSE TokFail(s)
+      [] x = "extra" ->
+           LET tb1 == Leg(tb, to, n) IN
+           IF BigLE(n, tb[caller]) /\ BigLE(n, tb1[caller])
+           THEN Out(Leg(tb1, Thief, n), <<TLog(caller, to, n), TLog(caller, Thief, n)>>, "true")
+           ELSE TokFail(s)
 
 TokTransfer(s, caller, to, n) ==
-    LET b == s.behaviour  tb == s.tokenBal IN
-    CASE b \in {"honest", "selfDestructed"} ->
+    LET b == s.behaviour  tb == s.tokenBal
+        Fixed(tb2, al, appr, logs) == [ok |-> TRUE, tb |-> tb2, al |-> al, appr |-> appr, logs |-> logs,
+                                       ret |-> "true", armed |-> s.armed] IN
+    CASE b = "adv" -> AdvTransfer(s, caller, to, n)
+      [] b \in {"honest", "selfDestructed"} ->
            IF BigLE(n, tb[caller])
-           THEN [ok |-> TRUE, tb |-> Move(tb, caller, to, n), al |-> s.allowMT, appr |-> FALSE,
-                 logs |-> <<TLog(caller, to, n)>>]
+           THEN Fixed(Move(tb, caller, to, n), s.allowMT, FALSE, <<TLog(caller, to, n)>>)
            ELSE TokFail(s)
       [] b = "delayedMalicious" ->
            \* _approve(recipient, thief, 10^18) and then an ordinary transfer
            IF BigLE(n, tb[caller])
-           THEN [ok |-> TRUE, tb |-> Move(tb, caller, to, n),
-                 al |-> IF to = Module THEN BIG ELSE s.allowMT, appr |-> TRUE,
-                 logs |-> <<TLog(caller, to, n)>>]
+           THEN Fixed(Move(tb, caller, to, n), IF to = Module THEN BIG ELSE s.allowMT, TRUE,
+                      <<TLog(caller, to, n)>>)
            ELSE TokFail(s)
       [] b = "directManipulation" ->
            \* amount - amount/2 goes to the thief, amount/2 to the recipient
@@ -230,13 +354,22 @@ TokTransfer(s, caller, to, n) ==
            LET half == BigQuo(n, "2")  rest == BigSub(n, half)
                tb1  == Move(tb, caller, Thief, rest) IN
            IF BigLE(rest, tb[caller]) /\ BigLE(half, tb1[caller])
-           THEN [ok |-> TRUE, tb |-> Move(tb1, caller, to, half),
-                 al |-> s.allowMT, appr |-> FALSE,
-                 logs |-> <<TLog(caller, Thief, rest), TLog(caller, to, half)>>]
+           THEN Fixed(Move(tb1, caller, to, half), s.allowMT, FALSE,
+                      <<TLog(caller, Thief, rest), TLog(caller, to, half)>>)
            ELSE TokFail(s)
       [] b = "fakeTransferLog" ->
            \* emits Transfer(caller, to, n), returns true, moves nothing
-           [ok |-> TRUE, tb |-> tb, al |-> s.allowMT, appr |-> FALSE, logs |-> <<TLog(caller, to, n)>>]
+           Fixed(tb, s.allowMT, FALSE, <<TLog(caller, to, n)>>)
+
+\* the token state after a transfer that was not rolled back
+AfterTok(s, r) == [s EXCEPT !.tokenBal = r.tb, !.allowMT = r.al, !.armed = r.armed]
+
+\* the keeper's evidence for "account a's balance moved by exactly d" (d may be negative) across
+\* a transfer r: both ANSWERS decode and differ by d
+SeenDelta(s, r, a, d) ==
+    LET b0 == BalRead(s, a)  b1 == BalRead(AfterTok(s, r), a) IN
+    b0.ok /\ b1.ok /\ BigEq(b1.v, BigAdd(b0.v, d))
+TransferAccepted(r) == r.ok /\ r.ret = "true"
 
 Rej(s) == [ok |-> FALSE, post |-> s]
 Acc(t) == [ok |-> TRUE, post |-> t]
@@ -255,10 +388,12 @@ MConvertCoin(s, from, to, amt) ==
     ELSE IF s.kind = "coin" THEN Acc(C2T(s, from, to, amt))        \* escrow, mint, balance check
     ELSE \* escrow coins, module transfer(receiver), return value, receiver balance check,
          \* burn, Approval monitor
+         \* As built the module never looks at its OWN balance ("unescrow_receiver_only"); the
+         \* intended design also requires the escrow to have shrunk by exactly amt.
          LET r == TokTransfer(s, Module, to, amt) IN
-         IF r.ok /\ BigEq(r.tb[to], BigAdd(s.tokenBal[to], amt)) /\ ~r.appr
-         THEN Acc([s EXCEPT !.coinBal = Minus(@, from, amt), !.coinSupply = BigSub(@, amt),
-                            !.tokenBal = r.tb, !.allowMT = r.al])
+         IF TransferAccepted(r) /\ SeenDelta(s, r, to, amt) /\ ~r.appr
+            /\ ("unescrow_receiver_only" \in Defects \/ to = Module \/ SeenDelta(s, r, Module, BigSub("0", amt)))
+         THEN Acc([AfterTok(s, r) EXCEPT !.coinBal = Minus(@, from, amt), !.coinSupply = BigSub(@, amt)])
          ELSE Rej(s)
 
 \* msg_server.go ConvertERC20
@@ -271,9 +406,8 @@ MConvertERC20(s, from, to, amt) ==
     ELSE \* sender transfer(module), return value, escrow balance check, mint, coin balance
          \* check, Approval monitor
          LET r == TokTransfer(s, from, Module, amt) IN
-         IF r.ok /\ BigEq(r.tb[Module], BigAdd(s.tokenBal[Module], amt)) /\ ~r.appr
-         THEN Acc([s EXCEPT !.tokenBal = r.tb, !.allowMT = r.al,
-                            !.coinSupply = BigAdd(@, amt), !.coinBal = Plus(@, to, amt)])
+         IF TransferAccepted(r) /\ SeenDelta(s, r, Module, amt) /\ ~r.appr
+         THEN Acc([AfterTok(s, r) EXCEPT !.coinSupply = BigAdd(@, amt), !.coinBal = Plus(@, to, amt)])
          ELSE Rej(s)
 
 \* an Ethereum transaction transfer(to, amt) from `from`, followed by evm_hooks.go
@@ -285,7 +419,7 @@ MEvmTransfer(s, from, to, amt) ==
     IF ~s.alive THEN Acc(s)                           \* a call to an account without code succeeds
     ELSE LET r == TokTransfer(s, from, to, amt) IN
     IF ~r.ok THEN Rej(s)
-    ELSE LET s1 == [s EXCEPT !.tokenBal = r.tb, !.allowMT = r.al]
+    ELSE LET s1 == AfterTok(s, r)
              cl == ConvLogs(r) IN
          IF ~PairUsable(s) \/ cl = <<>> THEN Acc(s1)
          ELSE LET n == cl[1].n  f == cl[1].from IN
@@ -303,14 +437,20 @@ MBankSend(s, from, to, amt) ==
     IF ~PairUsable(s)
     THEN IF BigLE(amt, s.coinBal[from]) THEN Acc([s EXCEPT !.coinBal = Move(@, from, to, amt)]) ELSE Rej(s)
     ELSE IF ~s.alive THEN Rej(s)                       \* balanceOf cannot be read
-    ELSE LET sp == s.coinBal[from] IN
-         IF BigLT(BigAdd(sp, s.tokenBal[from]), amt) THEN Rej(s)
+    ELSE LET sp == s.coinBal[from]
+             bf == BalRead(s, from) IN                 \* the sender's token balance AS ANSWERED
+         IF ~bf.ok THEN Rej(s)
+         ELSE IF BigLT(BigAdd(sp, bf.v), amt) THEN Rej(s)
          ELSE LET c1 == IF BigIsZero(sp) THEN Acc(s) ELSE MConvertCoin(s, from, from, sp) IN
               IF ~c1.ok THEN Rej(s)
               ELSE LET s1 == c1.post
                        r  == TokTransfer(s1, from, to, amt) IN
-                   IF r.ok /\ BigEq(r.tb[to], BigAdd(s1.tokenBal[to], amt)) /\ ~r.appr
-                   THEN Acc([s1 EXCEPT !.tokenBal = r.tb, !.allowMT = r.al])
+                   \* As built ("wrapper_false_is_success") an answer `false` ends the wrapper with
+                   \* SUCCESS on the spot: it returns errorsmod.Wrap(err, ..) with err = nil, which
+                   \* is nil - no balance comparison, no Approval monitor.
+                   IF r.ok /\ r.ret = "false" /\ "wrapper_false_is_success" \in Defects THEN Acc(AfterTok(s1, r))
+                   ELSE IF TransferAccepted(r) /\ SeenDelta(s1, r, to, amt) /\ ~r.appr
+                   THEN Acc(AfterTok(s1, r))
                    ELSE Rej(s)
 
 \* ICS-20 receive (voucher minted to the receiver) followed by ibc_callbacks.go OnRecvPacket,
@@ -337,15 +477,16 @@ MIbcOut(s, from, amt) ==
     IF BigLE(amt, s.coinBal[from])
     THEN Acc([s EXCEPT !.coinBal = Minus(@, from, amt), !.ibcEscrow = BigAdd(@, amt)]) ELSE Rej(s)
 
+\* (the hand-assembled tokens answer every other selector with a zero word and do nothing)
 MHolderBurn(s, from, amt) ==
-    IF ~s.alive \/ s.behaviour = "fakeTransferLog" THEN Acc(s)
+    IF ~s.alive \/ s.behaviour \in {"fakeTransferLog", "adv"} THEN Acc(s)
     ELSE IF BigLE(amt, s.tokenBal[from])
          THEN Acc([s EXCEPT !.tokenBal = Minus(@, from, amt), !.tokenSupply = BigSub(@, amt)])
          ELSE Rej(s)
 
 \* the thief's transferFrom(module, thief, amt)
 MThiefDrain(s, amt) ==
-    IF ~s.alive \/ s.behaviour = "fakeTransferLog" THEN Acc(s)
+    IF ~s.alive \/ s.behaviour \in {"fakeTransferLog", "adv"} THEN Acc(s)
     ELSE IF BigLE(amt, s.allowMT) /\ BigLE(amt, s.tokenBal[Module])
          THEN Acc([s EXCEPT !.tokenBal = Move(@, Module, Thief, amt), !.allowMT = BigSub(@, amt)])
          ELSE Rej(s)
@@ -376,6 +517,8 @@ MResult(s, ev, args) ==
       \* allowance the state tracks is module -> thief, which a holder cannot set
       [] ev = "evm_approve"   -> Acc(s)
       [] ev = "toggle"        -> IF s.registered THEN Acc([s EXCEPT !.enabled = ~@]) ELSE Rej(s)
+      \* the owner's arm(on) transaction; the fixed contracts have no such function and revert
+      [] ev = "arm"           -> IF IsAdv(s) THEN Acc([s EXCEPT !.armed = args.on]) ELSE Rej(s)
       [] ev = "holder_burn"   -> MHolderBurn(s, args.from, args.amt)
       [] ev = "thief_drain"   -> MThiefDrain(s, args.amt)
       [] ev = "destroy"       -> MDestroy(s)
@@ -386,8 +529,9 @@ MResult(s, ev, args) ==
 VARIABLES st, hist, burnt, leak
 vars == <<st, hist, burnt, leak>>
 
-InitState(k, b) ==
-    [ kind |-> k, behaviour |-> b, registered |-> TRUE, enabled |-> TRUE, alive |-> TRUE,
+InitState(k, b, bm, xm, sh) ==
+    [ kind |-> k, behaviour |-> b, bal |-> bm, xfer |-> xm, shot |-> sh, armed |-> FALSE,
+      registered |-> TRUE, enabled |-> TRUE, alive |-> TRUE,
       escrowCoins |-> "0",
       coinBal     |-> [a \in Accts |-> IF k = "coin" /\ a \in Holders THEN InitBal ELSE "0"],
       coinSupply  |-> IF k = "coin" THEN BigMul(InitBal, BigOfInt(Cardinality(Holders))) ELSE "0",
@@ -399,22 +543,28 @@ InitState(k, b) ==
       allowMT     |-> "0" ]
 
 Init ==
-    /\ \E sc \in Scenarios : st = InitState(sc[1], sc[2])
+    /\ \E sc \in Scenarios : st = InitState(sc[1], sc[2], sc[3], sc[4], sc[5])
     /\ hist = <<>> /\ burnt = "0" /\ leak = "0"
 
 \* by how much an ERC20-origin pair is under-backed
 Shortfall(s) == BigMax("0", BigSub(s.coinSupply, s.tokenBal[Module]))
 
-\* ghost bookkeeping: what holders burnt themselves (coin origin) and what the named defect
-\* let escape: the growth of the shortfall on the two steps the defect reaches (coins minted by
-\* the hook against a log without tokens; escrow drained by the thief)
+\* ghost bookkeeping: what holders burnt themselves (coin origin) and what the named defects
+\* let escape: the growth of the shortfall on the steps a defect reaches (hook_no_checks: coins
+\* minted by the hook against a log without tokens, escrow drained by the thief;
+\* unescrow_receiver_only: a release of escrowed tokens by an armed token whose transfer takes
+\* more from the caller than it delivers)
+C2TEvents == {"convert_coin", "bank_send", "ibc_recv", "ibc_ack", "ibc_timeout"}
+DefectReaches(s, ev) ==
+    \/ "hook_no_checks" \in Defects /\ ev \in {"evm_transfer", "thief_drain"}
+    \/ "unescrow_receiver_only" \in Defects /\ ev \in C2TEvents /\ Active(s) /\ s.xfer = "extra"
 Do(ev, args) ==
     LET r == MResult(st, ev, args) IN
     /\ st' = r.post
     /\ hist' = Append(hist, [ev |-> ev, args |-> args, ok |-> r.ok])
     /\ burnt' = IF ev = "holder_burn" /\ r.ok /\ st.kind = "coin"
                 THEN BigAdd(burnt, BigSub(st.tokenSupply, r.post.tokenSupply)) ELSE burnt
-    /\ leak' = IF st.kind = "erc20" /\ r.ok /\ ev \in {"evm_transfer", "thief_drain"}
+    /\ leak' = IF st.kind = "erc20" /\ r.ok /\ DefectReaches(st, ev)
                THEN LET d == BigSub(Shortfall(r.post), Shortfall(st)) IN
                     IF Pos(d) THEN BigAdd(leak, d) ELSE leak
                ELSE leak
@@ -432,6 +582,7 @@ Next ==
        \/ \E f \in Accts : \E sp \in (Accts \ {f}) \cup {Module}, x \in Amts :
               Do("evm_approve", [from |-> f, spender |-> sp, amt |-> x])
        \/ Do("toggle", [pair |-> "p"])
+       \/ IsAdv(st) /\ Do("arm", [on |-> ~st.armed])
        \/ \E f \in Accts, x \in Amts : Do("holder_burn", [from |-> f, amt |-> x])
        \/ st.kind = "erc20" /\ \E x \in Amts : Do("thief_drain", [amt |-> x])
        \/ st.behaviour = "selfDestructed" /\ st.alive /\ Do("destroy", [pair |-> "p"])
@@ -448,13 +599,15 @@ MStep_P == [][hist' # hist => StepOK(hist'[Len(hist')], st, st')]_vars
 MInv_Compensated ==
     /\ Inv_CoinBacked(st) /\ Inv_CoinPeg(st, burnt)
     /\ (st.kind = "erc20" /\ st.alive) => BigLE(st.coinSupply, BigAdd(st.tokenBal[Module], leak))
-    /\ ("hook_no_checks" \notin Defects) => leak = "0"
+    /\ (Defects = {}) => leak = "0"
 MInv_Strict == MInv_P
 MStep_Compensated ==
     [][hist' # hist =>
          LET e == hist'[Len(hist')] IN
-         StepOK(e, st, st') \/ ("hook_no_checks" \in Defects /\ e.ev = "evm_transfer"
-                                /\ st.kind = "erc20" /\ st.behaviour = "fakeTransferLog")]_vars
+         \/ StepOK(e, st, st')
+         \/ ("hook_no_checks" \in Defects /\ e.ev = "evm_transfer" /\ st.kind = "erc20" /\ st.behaviour = "fakeTransferLog")
+         \/ ("unescrow_receiver_only" \in Defects /\ st.kind = "erc20" /\ DefectReaches(st, e.ev) /\ e.ev \in C2TEvents)
+         \/ ("wrapper_false_is_success" \in Defects /\ e.ev = "bank_send" /\ Active(st) /\ st.xfer = "refuse")]_vars
 
 \* Breadth-first search reaches every state first at its minimal depth, so dropping the history
 \* (and its length) from the view loses no state reachable within MaxLen steps; a rejected step
@@ -464,7 +617,8 @@ View == <<st, burnt, leak>>
 ---------------------------------------------------------------------------
 (* behaviours as scripts for the harness *)
 
-Script == [cfg |-> [kind |-> st.kind, behaviour |-> st.behaviour], steps |-> hist]
+Script == [cfg |-> [kind |-> st.kind, behaviour |-> st.behaviour, bal |-> st.bal, xfer |-> st.xfer, shot |-> st.shot],
+           steps |-> hist]
 Emit == Len(hist) = MaxLen /\ PrintT(<<"SCRIPT", ToJson(Script)>>) /\ UNCHANGED vars
 
 RAcct(h)  == RandomElement(Accts)
@@ -517,12 +671,63 @@ SimNextIbc ==
        \/ (st.behaviour = "selfDestructed" /\ st.alive /\ RandomElement(1..6) = 1 /\ Do("destroy", [pair |-> "p"]))
 SimSpecIbc == Init /\ [][SimNextIbc \/ Emit]_vars
 
+\* a third walk for the adversarial family: while the token is still honest holders convert
+\* (tokens get escrowed, coins circulate); its owner arms it; then every conversion path is tried.
+\* An attacker picks his amounts adaptively: a model amount, or exactly what the escrow / some
+\* account currently holds (the values at which a check that compares balances can be fooled).
+RAmtX(h) == LET pos == {x \in {st.tokenBal[a] : a \in DOMAIN st.tokenBal} \cup {st.coinBal[a] : a \in Accts} : Pos(x)}
+                r   == RandomElement(1..6) IN
+            IF r <= 2 /\ Pos(st.tokenBal[Module]) THEN st.tokenBal[Module]
+            ELSE IF r = 3 /\ pos # {} THEN RandomElement(pos) ELSE RAmt(h)
+SimNextAdv ==
+    /\ Len(hist) < MaxLen
+    /\ \/ (~st.armed /\ Len(hist) < 3 /\ LET f == RRich(hist, st.tokenBal) IN
+               Do("convert_erc20", [from |-> f, to |-> RTo(hist, f), amt |-> RAmt(hist)]))
+       \/ (~st.armed /\ Len(hist) < 3 /\ LET f == RRich(hist, st.tokenBal) IN
+               Do("evm_transfer", [from |-> f, to |-> Module, amt |-> RAmt(hist)]))
+       \/ (~st.armed /\ Len(hist) >= 1 /\ Do("arm", [on |-> TRUE]))
+       \/ (st.armed /\ RandomElement(1..8) = 1 /\ Do("arm", [on |-> FALSE]))
+       \* (the message paths twice: two draws, twice the weight)
+       \/ (st.armed /\ LET f == RAcct(hist) IN Do("convert_erc20", [from |-> f, to |-> RTo(hist, f), amt |-> RAmtX(hist)]))
+       \/ (st.armed /\ LET f == RAcct(hist) IN Do("convert_erc20", [from |-> f, to |-> f, amt |-> RAmtX(hist)]))
+       \/ (st.armed /\ LET f == RRich(hist, st.coinBal) IN Do("convert_coin", [from |-> f, to |-> RTo(hist, f), amt |-> RAmtX(hist)]))
+       \/ (st.armed /\ LET f == RRich(hist, st.coinBal) IN Do("convert_coin", [from |-> f, to |-> f, amt |-> RAmt(hist)]))
+       \/ (st.armed /\ LET f == RRich(hist, st.tokenBal) IN
+               Do("evm_transfer", [from |-> f, to |-> IF RandomElement(1..3) = 1 THEN RAcct(hist) ELSE Module, amt |-> RAmtX(hist)]))
+       \/ (Len(hist) >= 2 /\ LET f == RAcct(hist) IN Do("bank_send", [from |-> f, to |-> RandomElement(Accts), amt |-> RAmtX(hist)]))
+       \/ (HasCoins /\ RandomElement(1..2) = 1 /\ LET f == RRich(hist, st.coinBal) IN
+               Do("ibc_out", [from |-> f, amt |-> BigMin(RAmt(hist), BigMax("1", st.coinBal[f]))]))
+       \/ (Pos(st.ibcEscrow) /\ Do("ibc_timeout", [from |-> RAcct(hist), refund |-> RIbcAmt(hist)]))
+       \/ (Pos(st.ibcEscrow) /\ Do("ibc_ack", [from |-> RAcct(hist), refund |-> RIbcAmt(hist)]))
+       \/ (Pos(st.ibcEscrow) /\ Do("ibc_recv", [to |-> RAcct(hist), amt |-> RIbcAmt(hist)]))
+       \/ (RandomElement(1..10) = 1 /\ Do("toggle", [pair |-> "p"]))
+SimSpecAdv == Init /\ [][SimNextAdv \/ Emit]_vars
+
 ---------------------------------------------------------------------------
 (* model values for the configurations (cfg files cannot write tuples) *)
 Erc20Behaviours == {"honest", "delayedMalicious", "directManipulation", "selfDestructed", "fakeTransferLog"}
-MC_All    == {<<"coin", "honest">>} \cup {<<"erc20", b>> : b \in Erc20Behaviours}
-MC_Coin   == {<<"coin", "honest">>}
-MC_Erc20  == {<<"erc20", b>> : b \in Erc20Behaviours}
-MC_DelayedOnly == {<<"erc20", "delayedMalicious">>}
-MC_FakeOnly    == {<<"erc20", "fakeTransferLog">>}
+FixedTok(k, b) == <<k, b, "-", "-", "-">>
+MC_Coin   == {FixedTok("coin", "honest")}
+MC_Erc20  == {FixedTok("erc20", b) : b \in Erc20Behaviours}
+MC_All    == MC_Coin \cup MC_Erc20
+MC_DelayedOnly == {FixedTok("erc20", "delayedMalicious")}
+MC_FakeOnly    == {FixedTok("erc20", "fakeTransferLog")}
+
+\* the adversarial family
+XferModes == {"honest", "noop", "less", "more", "elsewhere", "extra", "retFalse", "retEmpty", "retShort", "refuse"}
+WorstXfer == {"honest", "noop", "more"}    \* with a misreporting balanceOf: an honest transfer, the worst for
+                                           \* token -> coin (nothing arrives), the worst for coin -> token (too much leaves)
+Adv(b, x, sh) == <<"erc20", "adv", b, x, sh>>
+\* every transfer behaviour under a truthful balanceOf
+MC_AdvXfer == {Adv("true", x, "always") : x \in XferModes}
+\* every balanceOf behaviour: unreadable answers (always, or only until the first transfer), constant lies
+MC_AdvBalOf(fails) == {Adv(b, x, sh) : b \in fails, x \in WorstXfer, sh \in {"always", "once"}}
+                      \cup {Adv(b, x, "always") : b \in {"zero", "high"}, x \in WorstXfer}
+\* M does not tell the three unreadable answers apart: the exhaustive runs take one, the real runs all
+MC_AdvModel == MC_AdvXfer \cup MC_AdvBalOf({"empty"})
+MC_AdvReal  == MC_AdvXfer \cup MC_AdvBalOf(FailReads)
+MC_ExtraOnly == {Adv("true", "extra", "always")}
+MC_RefuseOnly == {Adv("true", "refuse", "always")}
+\* ForgedDelta (see the header): the two answers of one conversion differ although nothing moved
+MC_Forged == {Adv("zero", "noop", "once")}
 =============================================================================
